@@ -435,6 +435,8 @@ func c50Run(c *core.Ctx) {
 	for n, i := range idx {
 		c50RunSite(c, e, c50Product[i], real[n], n%c50TwinEvery == twinOff)
 	}
+	// contract interfaces as the enclosing contract-kinded declaration (c50_ki.go)
+	c50KI(c)
 	c.Max("product_size", int64(len(c50Product)))
 	c.Max("corner_sites", int64(len(c50Corners)))
 }
@@ -442,7 +444,7 @@ func c50Run(c *core.Ctx) {
 func init() {
 	// floors: about one fifth of what the quick tier observes on the unchanged tree
 	floors := map[string]int64{
-		"sites": 5000, "baseline_world_clean": 12, "twin_clean": 300,
+		"sites": 5000, "ki_sites": 1000, "ki_expected_accept": 300, "ki_expected_reject": 200, "ki_kind:contract": 300, "ki_kind:contract interface": 300, "baseline_world_clean": 12, "twin_clean": 300,
 		"verdict_permitted": 2000, "verdict_denied": 3000,
 		"real_path_agree": 100, "real_path_rejections": 50, "real_path_contract": 70, "real_path_script": 10, "real_path_transaction": 10,
 		"program_contract": 4000, "program_script": 550, "program_transaction": 500,
@@ -487,7 +489,7 @@ func init() {
 		Rule: "one access site per generated program over the cross product " + c50ProductLabel +
 			" in a seeded world of contracts A,B (account 0x1) and C (0x2); quick = all corner combinations (declaring contract A, first receiver source: every modifier x member kind x declaring composite x scope x operation x receiver form once) " +
 			"+ 8000 seeded sites over 64 seeded worlds, thorough = the full product in each of 12 seeded worlds; a site is distinct by its program text " +
-			"and non-trivial always (its site-less twin checks cleanly, so the verdict is attributable to the site statement)",
+			"and non-trivial always (its site-less twin checks cleanly, so the verdict is attributable to the site statement); plus a second, smaller product (c50_ki.go, 330 sites, all of them every four cases) in which the enclosing contract-kinded declaration is a contract or a contract interface and the member belongs to a nested struct/resource interface",
 		Assumptions: []string{
 			"oracle = hand-written scope model (c50_model.go): lexical placement, deploying account and held authorization only; no sema code is consulted",
 			"'inside the declaring composite' is lexical and includes declarations nested in it (composites nested in a contract may use and assign the contract's access(self) members)",
